@@ -205,6 +205,9 @@ pub enum SnapFmt {
     /// serialised into a `serde_json::Value` document and its bytes; the bytes are read back into a
     /// `Value` and the generator is deserialised from that (keys arrive owned and in sorted order)
     JsonValue,
+    /// TOML text (a format whose integers are signed 64-bit: unsigned words arrive through the
+    /// deserializer's i64 path whenever they fit); a value the format cannot express is "not written"
+    Toml,
 }
 
 /// A reader over a byte image that returns at most 1..5 bytes per call (deterministic in the position).
@@ -553,6 +556,7 @@ macro_rules! m_snap {
                 }
                 SnapFmt::JsonReader => Some(serde_json::to_vec_pretty($s).expect("json serialize")),
                 SnapFmt::JsonValue => Some(serde_json::to_vec(&serde_json::to_value($s).expect("json to_value")).expect("json serialize")),
+                SnapFmt::Toml => toml::to_string($s).ok().map(|t| t.into_bytes()),
             }
         }
         #[cfg(not(feature = "snap"))]
@@ -587,6 +591,7 @@ macro_rules! m_restore {
                 SnapFmt::BincodeReader => bincode::deserialize_from(ShortReader { data: $bytes, pos: 0 }).map_err(|e| e.to_string()),
                 SnapFmt::JsonReader => serde_json::from_reader(ShortReader { data: $bytes, pos: 0 }).map_err(|e| e.to_string()),
                 SnapFmt::JsonValue => serde_json::from_slice::<serde_json::Value>($bytes).and_then(serde_json::from_value).map_err(|e| e.to_string()),
+                SnapFmt::Toml => toml::from_str(std::str::from_utf8($bytes).map_err(|e| e.to_string())?).map_err(|e| e.to_string()),
             };
             r.map(|g| Box::new($w(Placed::new(g))) as Box<dyn DynGen>)
         }
@@ -1121,6 +1126,7 @@ pub fn restore_core(kind: CoreKind, fmt: SnapFmt, bytes: &[u8]) -> Result<Box<dy
                 SnapFmt::BincodeReader => bincode::deserialize_from(ShortReader { data: bytes, pos: 0 }).map_err(|e| e.to_string()),
                 SnapFmt::JsonReader => serde_json::from_reader(ShortReader { data: bytes, pos: 0 }).map_err(|e| e.to_string()),
                 SnapFmt::JsonValue => serde_json::from_slice::<serde_json::Value>(bytes).and_then(serde_json::from_value).map_err(|e| e.to_string()),
+                SnapFmt::Toml => toml::from_str(std::str::from_utf8(bytes).map_err(|e| e.to_string())?).map_err(|e| e.to_string()),
             }
         }
         match kind {
